@@ -453,6 +453,10 @@ impl Scenario for IncScn {
                                 v.push(IAct::OpenFlow { creator: c.clone(), amount: a, funds: f.to_string(), end_delta: 3 });
                             }
                         }
+                        if ci == 1 {
+                            // a flow that ends with the next epoch, so that its last epoch is within reach
+                            v.push(IAct::OpenFlow { creator: c.clone(), amount: 3000, funds: "exact".into(), end_delta: 1 });
+                        }
                     }
                 }
                 for (id, f) in g.flows.iter() {
@@ -460,6 +464,8 @@ impl Scenario for IncScn {
                         v.push(IAct::ExpandFlow { id: *id, amount: a, funds: fk.to_string(), by: f.creator.clone() });
                     }
                     v.push(IAct::ExpandFlow { id: *id, amount: 777, funds: "exact".into(), by: MALLORY.into() });
+                    // "@end": the expansion names the flow's current end epoch explicitly instead of leaving it open
+                    v.push(IAct::ExpandFlow { id: *id, amount: 5000, funds: "exact@end".into(), by: f.creator.clone() });
                     v.push(IAct::CloseFlow { id: *id, by: f.creator.clone() });
                     v.push(IAct::CloseFlow { id: *id, by: OWNER.into() });
                     v.push(IAct::CloseFlow { id: *id, by: MALLORY.into() });
@@ -869,7 +875,8 @@ impl Scenario for IncScn {
                 };
                 let ib = bal(w, &h.reward, &h.incentive);
                 let before = flows_of(w, h).iter().find(|f| f.flow_id == *id).map(flow_amount);
-                let r = inc_exec(w, h, by, &IncExec::ExpandFlow { flow_identifier: FlowIdentifier::Id(*id), end_epoch: None, flow_asset: asset(&h.reward, amt) }, &coins);
+                let end_epoch = if funds.ends_with("@end") { flows_of(w, h).iter().find(|f| f.flow_id == *id).map(|f| f.end_epoch) } else { None };
+                let r = inc_exec(w, h, by, &IncExec::ExpandFlow { flow_identifier: FlowIdentifier::Id(*id), end_epoch, flow_asset: asset(&h.reward, amt) }, &coins);
                 match &r {
                     Ok(_) => {
                         cx.count("expandflow:ok");
